@@ -113,48 +113,7 @@ func checkC11(p *Program, r *Reporter) {
 		}
 	}
 	// respond once
-	r.Rule("E5-RESPOND-ONCE", "after an error answer the patch handler writes nothing more", 4)
-	var w *ssa.Parameter
-	for _, prm := range h.Params {
-		if prm.Type().String() == "net/http.ResponseWriter" {
-			w = prm
-		}
-	}
-	if w == nil {
-		r.Broken("patchHandlerFunc: no ResponseWriter parameter")
-	} else {
-		for _, b := range h.Blocks {
-			for idx, in := range b.Instrs {
-				c, ok := isCallTo(in, "net/http.Error")
-				if !ok {
-					continue
-				}
-				bad := ""
-				seen := map[*ssa.BasicBlock]bool{}
-				var walk func(bb *ssa.BasicBlock, from int)
-				walk = func(bb *ssa.BasicBlock, from int) {
-					if bad != "" {
-						return
-					}
-					for k := from; k < len(bb.Instrs); k++ {
-						if usesValueInCall(bb.Instrs[k], w) {
-							bad = p.pos(instrPos(bb.Instrs[k]))
-							return
-						}
-					}
-					for _, s := range bb.Succs {
-						if !seen[s] {
-							seen[s] = true
-							walk(s, 0)
-						}
-					}
-				}
-				walk(b, idx+1)
-				r.Decide(bad == "", "E5-RESPOND-ONCE", shortFn(h), "http.Error", p.pos(c.Pos()), "every path from this answer returns without touching the ResponseWriter",
-					"after this error answer the handler goes on and writes to the response again at "+bad, nil)
-			}
-		}
-	}
+	respondOnceRule(p, r, h, 4)
 	// (b) attribute sources
 	r.Rule("E4-ATTR", "originalPublishTime <- old document's publishTime; publishTime <- new document's", 2)
 	if len(npd.Params) == 2 {
@@ -407,5 +366,51 @@ func oldQueryRule(p *Program, r *Reporter, h *ssa.Function) {
 	}
 	if n == 0 {
 		r.Broken("patchHandlerFunc: no store to URL.RawQuery found")
+	}
+}
+
+// respondOnceRule: after an error answer (http.Error) the handler writes nothing more to the response.
+func respondOnceRule(p *Program, r *Reporter, h *ssa.Function, floor int) {
+	r.Rule("E5-RESPOND-ONCE", "after an error answer the handler writes nothing more", floor)
+	var w *ssa.Parameter
+	for _, prm := range h.Params {
+		if prm.Type().String() == "net/http.ResponseWriter" {
+			w = prm
+		}
+	}
+	if w == nil {
+		r.Broken("%s: no ResponseWriter parameter", shortFn(h))
+		return
+	}
+	for _, b := range h.Blocks {
+		for idx, in := range b.Instrs {
+			c, ok := isCallTo(in, "net/http.Error")
+			if !ok {
+				continue
+			}
+			bad := ""
+			seen := map[*ssa.BasicBlock]bool{}
+			var walk func(bb *ssa.BasicBlock, from int)
+			walk = func(bb *ssa.BasicBlock, from int) {
+				if bad != "" {
+					return
+				}
+				for k := from; k < len(bb.Instrs); k++ {
+					if usesValueInCall(bb.Instrs[k], w) {
+						bad = p.pos(instrPos(bb.Instrs[k]))
+						return
+					}
+				}
+				for _, s := range bb.Succs {
+					if !seen[s] {
+						seen[s] = true
+						walk(s, 0)
+					}
+				}
+			}
+			walk(b, idx+1)
+			r.Decide(bad == "", "E5-RESPOND-ONCE", shortFn(h), "http.Error", p.pos(c.Pos()), "every path from this answer returns without touching the ResponseWriter",
+				"after this error answer the handler goes on and writes to the response again at "+bad, nil)
+		}
 	}
 }
